@@ -138,6 +138,25 @@ pub fn utf8_model(v: &[u8]) -> Result<&str, core::str::Utf8Error> {
     }
 }
 
+struct FromUtf8ErrorTwin {
+    bytes: Vec<u8>,
+    error: core::str::Utf8Error,
+}
+
+/// Stub for `String::from_utf8` itself (skips std's wrapper; same accept set, the error keeps the bytes).
+pub fn string_from_utf8_model(v: Vec<u8>) -> Result<String, std::string::FromUtf8Error> {
+    tick();
+    if utf8_valid(&v) {
+        Ok(unsafe { String::from_utf8_unchecked(v) })
+    } else {
+        let t = FromUtf8ErrorTwin {
+            bytes: v,
+            error: some_utf8_error(),
+        };
+        Err(unsafe { core::mem::transmute::<FromUtf8ErrorTwin, std::string::FromUtf8Error>(t) })
+    }
+}
+
 /// ASCII-only lowering for `str::to_lowercase` (harnesses assume ASCII names).
 pub fn ascii_lower(s: &str) -> String {
     let mut out = String::with_capacity(s.len());
